@@ -2,6 +2,7 @@
 //! TLA+ trace specifications in /verif/spec judge.  Rust only drives and projects; no verdicts.
 mod alloc;
 mod bq;
+mod hser;
 mod xmlh;
 mod tendrilops;
 mod meta;
@@ -29,6 +30,7 @@ fn main() {
     match argv[1].as_str() {
         "bq" => bq::main(&args),
         "tok" => tok::main(&args),
+        "hser" => hser::main(&args),
         "xml" => xmlh::main(&args),
         "tendril" => tendrilops::main(&args),
         "tendril-mt" => tendrilops::main_mt(&args),
